@@ -10,5 +10,14 @@ cfn("localmaxlabel.c:neighbormax", lens={"im": "dim0*dim1", "lout": "dim0*dim1",
     loops={0: ["isdef('npks')", "npks == 0"],
            1: ["isdef('npks')", "0 <= npks", "npks <= i"],
            2: ["exists(1, dim0 - 1, lambda r: i == r*dim1)", "dim1 <= i", "i < (dim0 - 1)*dim1", "1 <= j", "isdef('k0')", "isdef('k1')", "isdef('mx0')", "isdef('mx1')",
-               "defined(lout, i)", "0 <= lout[i]", "lout[i] <= j", "1 <= k0", "k0 <= 9", "4 <= k1", "k1 <= 9"]},
-    ensures=["0 <= result"], props=["C20"])
+               "defined(lout, i)", "0 <= lout[i]", "lout[i] <= j", "1 <= k0", "k0 <= 9", "4 <= k1", "k1 <= 9",
+               "k0 <= 3", "k1 <= 6",
+               ("C13", "mx0 == cmax(i + j - 1)"), ("C13", "im[i + j + off9(k0)] == mx0"), ("C13", "mx1 == cmax(i + j)"), ("C13", "im[i + j + off9(k1)] == mx1")]},
+    locals={
+        "cmax": "lambda c: max_(max_(im[c - dim1], im[c]), im[c + dim1])",
+        # offset of direction code k = 1..9: column to the left top to bottom, own column, column to the right
+        "off9": "lambda k: ite(k <= 3, -1, ite(k <= 6, 0, 1)) + ite(Or_(k == 1, k == 4, k == 7), -dim1, ite(Or_(k == 2, k == 5, k == 8), 0, dim1))"},
+    # C13, first stage: when an interior pixel is written it receives a direction code 1..9 that points at a largest of its nine
+    # neighbours (5 = itself).  Which of several equal maxima is chosen is deliberately left open: C13 speaks about tie-free images.
+    asserts={2: [("C13", "And_(1 <= l[p], l[p] <= 9)"), ("C13", "im[p + off9(l[p])] == max_(max_(cmax(p - 1), cmax(p)), cmax(p + 1))")]},
+    ensures=["0 <= result"], props=["C13", "C20"])
